@@ -141,6 +141,17 @@ class ClientWorld(object):
                     c.close(error.ConnectionLost("broker %d restarted" % bid))
         elif kind == "coordinator":
             cl.coordinator[ev[1]] = ev[2]
+        elif kind == "fail_over":
+            # broker ev[1] goes silent for good; its partitions and group coordination move to broker ev[2]
+            dead, heir = ev[1], ev[2]
+            cl.modes.append({"broker": dead, "silent": True, "budget": -1})
+            for tp, ld in list(cl.leader.items()):
+                if ld == dead:
+                    cl.leader[tp] = heir
+            cl.default_coordinator = heir if cl.default_coordinator == dead else cl.default_coordinator
+            for g, b_ in list(cl.coordinator.items()):
+                if b_ == dead:
+                    cl.coordinator[g] = heir
         elif kind in ("phantom_joins", "phantom_leaves", "evict"):
             from ref import simgroup
             {"phantom_joins": simgroup.phantom_joins, "phantom_leaves": simgroup.phantom_leaves,
